@@ -496,8 +496,8 @@ def run_rates(case):
             if math.isfinite(J) and not J <= Z * B * (1 + 1e-12):
                 bad('rates/site=%s/rate-above-Z-beta' % sg, t2 + 'rate=%r > Z*beta=%r' % (J, Z * B))
             # independent value  J = Z beta exp(-G/kT)
-            jref = Z * B * math.exp(-G / (KB * T)) if G / (KB * T) < 700 else 0.0
-            if not abs(J - jref) <= 1e-9 * max(jref, 1e-300):
+            jref = Z * B * math.exp(-G / (KB * T)) if G / (KB * T) < 740 else 0.0
+            if not abs(J - jref) <= 1e-9 * jref + 1e-290:            # 1e-290: underflow region of exp
                 bad('rates/site=%s/rate-formula' % sg, t2 + 'rate=%r, Z beta exp(-G/kT)=%r' % (J, jref))
             # steady state rate non-decreasing in dG at fixed T (1e-9: rounding of the product)
             if prevJ is not None and not J >= prevJ * (1 - 1e-9):
@@ -561,7 +561,9 @@ def run_rates(case):
             if ok:
                 nst += len(dgs)
                 # the table is dG*Vm/Vm: may differ from dG by one rounding, compare to 1e-12
-                for nme, got, want in (('Rcrit', nd.Rcrit, Ra), ('Gcrit', nd.Gcrit, Ga), ('Z', nd.Z, Za)):
+                # (skipped when this case already shows the barrier defect: the table differs from dG by one rounding and
+                #  the defective barrier c Rmin^2 (3 gamma - dG Rmin) is ill-conditioned near its zero crossing)
+                for nme, got, want in ((('Rcrit', nd.Rcrit, Ra), ('Gcrit', nd.Gcrit, Ga), ('Z', nd.Z, Za)) if okall else ()):
                     got = np.asarray(got, dtype=float)
                     want = np.asarray(want, dtype=float)
                     m = np.isfinite(want) & np.isfinite(got)
@@ -574,7 +576,8 @@ def run_rates(case):
                     pos = np.array(dgs) > 0
                     if got.shape != pos.shape or (okall and not (np.all(np.isfinite(got[pos])) and np.all(got[pos] >= 0))):
                         bad('rates/site=%s/steady-state-range/%s' % (sg, nme), 'computeSteadyStateNucleation %s = %r' % (nme, got))
-    return {'viol': viol, 'states': nst, 'transitions': nst, 'outcome': '+'.join(sorted(outs)) + ('+badclip' if clipped_bad else ''),
+    return {'viol': viol, 'states': nst, 'transitions': nst, 'outcome': 'nonpos=%d,unclipped=%d,clipped=%d%s' % (sum(1 for d_ in dgs if d_ <= 0), sum(1 for d_ in dgs if d_ > 0 and 2 * gamma / d_ >= Rmin),
+                                                                   sum(1 for d_ in dgs if d_ > 0 and 2 * gamma / d_ < Rmin), ',badclip' if clipped_bad else ''),
             'nontrivial': 'clipped' in outs or 'unclipped' in outs}
 
 
@@ -687,12 +690,6 @@ def run_sites(case):
             if who != 'other' and prev is not None and prev0 is not None and not prev < prev0:
                 bad('not-decreasing', 'profile=%s who=%s: %r sites when empty, %r with %r precipitates /m3'
                     % (profile, who, prev0, prev, case['scales'][-1]))
-                # beta / tau / rate depend on the composition (here the table key): range clauses only
-                for nme, got in (('beta', nd.beta), ('tau', nd.tau), ('rate', nd.nucleation_rate), ('Rnuc', nd.nucleation_radius)):
-                    got = np.asarray(got, dtype=float)
-                    pos = np.array(dgs) > 0
-                    if got.shape != pos.shape or (okall and not (np.all(np.isfinite(got[pos])) and np.all(got[pos] >= 0))):
-                        bad('rates/site=%s/steady-state-range/%s' % (sg, nme), 'computeSteadyStateNucleation %s = %r' % (nme, got))
     return {'viol': viol, 'states': nst, 'transitions': nst, 'outcome': '+'.join(sorted(outs)),
             'info': {'sites_empty': prev0 if nst else None}}
 
